@@ -520,7 +520,8 @@ Qed.
 Lemma sqlite_schema_consistent :
   builder_tuple = table_columns /\ table_columns = [ColId; ColData; ColCount] /\
   select_ids_cols = [ColId] /\ select_sizes_cols = [ColId; ColCount] /\ select_clients_cols = [ColId; ColData] /\
-  sqlite_row_is_id_blob_count = true /\ sqlite_reads_in_rowid_order = true /\ sqlite_fresh_cursor_per_query = true.
+  sqlite_row_is_id_blob_count = true /\ sqlite_reads_in_rowid_order = true /\ sqlite_fresh_cursor_per_query = true /\
+  sqlite_views_forward_constructor_arguments = true.
 Proof. repeat split. Qed.
 
 Lemma tables_consistent :
